@@ -14,8 +14,9 @@ TPublish == IsEvent("Publish") /\ Publish(ev.m) /\ UNCHANGED topic
 TOut == /\ IsEvent("Out")
         /\ ev.topic = topic
         /\ Len(ev.value) >= 4 /\ SubSeq(ev.value, 1, 4) = BE4(Len(ev.value) - 4)      \* 4-byte big-endian length prefix
-        /\ ev.wireok                                                                  \* exactly that many bytes of well-formed protobuf
-        /\ Out(ev.fields)                                                             \* the record's values and the header's
+        /\ LET pb == ParsePB(SubSeq(ev.value, 5, Len(ev.value))) IN                   \* exactly that many bytes of well-formed protobuf
+             /\ pb.ok
+             /\ Out([nums |-> pb.nums, strs |-> pb.strs])                              \* which decode to the record's values and the header's
         /\ ev.consok /\ FieldsMatch(ev.cons, Head(pending))                           \* the consumer-side decoder recovers the same
         /\ UNCHANGED topic
 TEnd == IsEvent("End") /\ pending = << >> /\ UNCHANGED << kvars, topic >>
